@@ -67,6 +67,9 @@ def sibling(ctx) -> None:
             continue
         minfo = prog.func(f'{matcher.ref}.{k}')
         supers = [c for c in core.calls_in(mfn) if isinstance(c.func, ast.Attribute) and c.func.attr == k and core.src(c.func.value) == 'super()']
+        if not supers and k != 'visit_table':
+            ctx.fail('R-SIBLING', minfo, f'the matcher overrides {k} without ever descending (no super().{k}(source)): the tables below a {k[6:]} are never checked against the advertised sources', mfn, key=f'{k}:no-descent')
+            continue
         skips = bool(supers) and any(any(t in ('self and source not in self._sources', 'source not in self._sources') and pol for t, pol in cfg.cguards(c, mfn)) for c in supers)
         if supers and not skips:
             # any other guard in front of the descent must be recognised, otherwise coverage is undecided
